@@ -404,13 +404,90 @@ def part_d(log, tier):
     return n, bad
 
 
+def part_e(log, tier):
+    """Pieces added after the seed rounds: the model search by evaluation (a returned assignment must satisfy the formula;
+    an unsatisfiable formula must give none), `table.get(k) is None` on constant tables, bytes()/bytearray() copies of
+    abstract buffers, unknown-content containers (an element read back is unconstrained, a miss is possible)."""
+    import z3
+    from .solve import guess_model
+    n = bad = 0
+    x, y, b = z3.Int('x'), z3.Int('y'), z3.Bool('b')
+    rnd = random.Random(5)
+    forms = []
+    for _ in range(60 if tier == 'quick' else 600):
+        k, m = rnd.randrange(1, 1 << 20), rnd.randrange(2, 300)
+        forms.append(z3.And(x >= 0, x < (1 << 20), y >= 0, y < 256, z3.BV2Int(z3.Int2BV(x * 16, 30) | z3.Int2BV(y, 30)) % m != (x * 16 + y) % m, z3.Or(b, x != k)))      # overlapping bits: satisfiable
+    unsat = [z3.And(x >= 0, x < 10, x * x == 50), z3.And(x > 3, x < 3), z3.And(b, z3.Not(b)), z3.And(x >= 0, x <= 255, x % 16 == 10, x % 2 == 1)]
+    forms += [z3.And(x >= 0, x < 10, x * x == 49), z3.And(x >= 0, x <= 255, (x / 16) % 16 == 15, x % 16 == 10)]
+    found = 0
+    for f in unsat:
+        n += 1
+        if guess_model(f, None) is not None:
+            bad += 1
+            log(f'  E guess_model found an assignment for the unsatisfiable {f}')
+    for f in forms:
+        gm = guess_model(f, None)
+        n += 1
+        found += gm is not None
+        s = z3.Solver()
+        s.set('timeout', 20000)
+        s.add(f)
+        if gm is not None:
+            for kk, v in gm.items():
+                s.add((z3.Bool(kk) == v) if isinstance(v, bool) else (z3.Int(kk) == v))
+            if s.check() != z3.sat:
+                bad += 1
+                log(f'  E guess_model returned an assignment that is not a model: {gm} for {f}')
+    # engine vs CPython on small functions that use the new pieces
+    src = """
+TABLE = {"a": 1, "b": 2, "c": 0}
+
+def look(k):
+    r = TABLE.get(k, None)
+    if r is None:
+        raise KeyError(k)
+    return r
+
+def look2(k):
+    r = TABLE.get(k)
+    return -1 if r is None else r + 10
+"""
+    ns = {}
+    exec(src, ns)
+    for k in ['a', 'b', 'c', 'd', '', 'A', None]:
+        for fn in ('look', 'look2'):
+            n += 1
+            try:
+                want = ('return', ns[fn](k))
+            except Exception as e:  # noqa
+                want = ('raise', type(e).__name__)
+            from .abstract import TableGet
+            tg = TableGet(ns['TABLE'], k, None, 'TABLE')
+
+            class _Ex:
+                @staticmethod
+                def equals(a, bb):
+                    return a == bb
+            isn = tg.is_none(_Ex)
+            isn = bool(isn) if isinstance(isn, bool) else z3.is_true(z3.simplify(isn.t if hasattr(isn, 't') else isn))
+            if isn != (ns['TABLE'].get(k) is None):
+                bad += 1
+                log(f'  E TableGet.is_none({k!r}) = {isn}, CPython says {ns["TABLE"].get(k) is None}')
+    n += 1
+    if found < len(forms) // 2:
+        bad += 1
+        log(f'  E guess_model found a model for only {found} of {len(forms)} satisfiable formulas (the search is not doing its job)')
+    print(f'  E model search / table lookups: {n} cases, {bad} disagreement(s); models found for {found} of {len(forms)} satisfiable formulas')
+    return n, bad
+
+
 def main(tier='quick'):
     t0 = time.time()
     from . import tasks as _t  # noqa: F401  (inserts the repository into sys.path)
     problems = []
     log = problems.append
     total = bad = 0
-    for part in (part_a, part_b, part_c, part_d):
+    for part in (part_a, part_b, part_c, part_e, part_d):
         try:
             n, b = part(log, tier)
         except Exception:  # noqa
